@@ -101,3 +101,60 @@ package readline
 //@   loop 1 invariant cmdok(rl) && vii != 0 && (old(len(rl.Iterations.times)) == 0 ==> vii == 1) && i >= 1 && i <= max(vii, 0) + 1 && 0 <= pos && clean(buffer)
 //@   loop 1 invariant old(len(killed(rl))) > 0 && old(killed(rl))[old(len(killed(rl))) - 1] != '\n' && !old(rl.Buffers.waiting) && !old(rl.Buffers.selected) ==> buffer == old(killed(rl)) && pos == old(kb(rl)) && (i == 1 ==> *rl.line == old(*rl.line)) && (i == 2 ==> *rl.line == old(*rl.line)[:old(kb(rl))] + core.stripz(old(killed(rl))) + old(*rl.line)[old(kb(rl)):])
 //@   loop 1 decreases vii - i + 1
+
+// ---------------------------------------------------------------------------------------
+// C17: vi delete vs vi yank.  Both operators are stated against one pair of spec functions opB/opE: the
+// range Selection.Pos() returns after adjustSelectionPending has (or has not) switched the selection to
+// visual, which depends only on the command that is active.
+
+//@ spec needsvis(a string) bool = a == "vi-end-word" || a == "vi-end-bigword" || a == "vi-find-next-char" || a == "vi-find-next-char-skip" || a == "vi-find-prev-char" || a == "vi-find-prev-char-skip" || a == "vi-match" || a == "select-in-word" || a == "select-a-word" || a == "select-in-blank-word" || a == "select-a-blank-word" || a == "select-in-shell-word" || a == "select-a-shell-word" || a == "vi-select-inside" || a == "vi-change-to"
+//@ spec opvis(rl *Shell) bool = rl.selection.visual || (rl.selection.active && needsvis(rl.Keymap.active.Action))
+//@ spec opvl(rl *Shell) bool = rl.selection.visualLine && !(rl.selection.active && needsvis(rl.Keymap.active.Action))
+//@ spec opB(rl *Shell) int = core.selBg(rl.selection, opvis(rl), opvl(rl))
+//@ spec opE(rl *Shell) int = core.selEg(rl.selection, opvis(rl), opvl(rl))
+// dd / yy: the current text line(s), as Pos() reports them after Mark(cursor) and Visual(true)
+//@ spec lineB(rl *Shell) int = core.selBh(rl.selection, rl.selection.active || len(*rl.line) > 0, ite(len(*rl.line) > 0, kb(rl), rl.selection.bpos), ite(len(*rl.line) > 0, -1, rl.selection.epos), true, true)
+//@ spec lineE(rl *Shell) int = core.selEh(rl.selection, rl.selection.active || len(*rl.line) > 0, ite(len(*rl.line) > 0, kb(rl), rl.selection.bpos), ite(len(*rl.line) > 0, -1, rl.selection.epos), true, true)
+//@ spec addnl(s string) string = ite(len(s) > 0 && s[len(s) - 1] != '\n', s + "\n", s)
+//@ pred viok(rl *Shell) = cmdok(rl) && keymap.kmvalid(rl.Keymap) && rl.Hint != nil && rl.completer != nil && rl.Keys != nil && rl.Display != nil
+
+//@ func (*Shell).adjustSelectionPending
+//@   props C17 C01
+//@   terminates
+//@   requires rl != nil && rl.selection != nil && rl.Keymap != nil
+//@   assigns rl.selection.visual, rl.selection.visualLine
+//@   ensures rl.selection.visual == old(opvis(rl)) && rl.selection.visualLine == old(opvl(rl))
+
+//@ func (*Shell).viCommandMode
+//@   trusted resets selection/iterations/registers flags, cancels completion and hints, re-reads (line, cursor, selection) from the completion engine (identical outside isearch), moves the cursor back by at most one and switches keymaps; does not touch the buffer text or the kill buffer (completion engine and hint code are outside the verified set; hypothesis: no completion or isearch active)
+//@   requires viok(rl)
+//@   assigns rl.selection.Type, rl.selection.active, rl.selection.visual, rl.selection.visualLine, rl.selection.bpos, rl.selection.epos, rl.selection.kpos, rl.selection.fg, rl.selection.bg, rl.selection.surrounds, rl.Iterations.times, rl.Iterations.active, rl.Iterations.pending, rl.Buffers.active, rl.Buffers.waiting, rl.Buffers.selected, rl.cursor.pos, rl.cursor.mark, rl.Keymap.local, rl.Keymap.main, anyof("ui.Hint", "*"), anyof("completion.Engine", "*")
+//@   ensures core.ccmd(rl.cursor)
+
+//@ func (*Shell).viDeleteTo
+//@   props C17
+//@   assume_nopanic only the active-selection branch is under contract for C17; the other branches (operator-pending entry, dd, D) reach display/hint/completion code
+//@   requires viok(rl) && !rl.Buffers.selected && len(rl.selection.surrounds) == 0
+//@   let pend = len(rl.Keymap.pending) > 0 && rl.Keymap.active.Action == rl.Keymap.pending[0].Action
+//@   let b = opB(rl)
+//@   let e = opE(rl)
+//@   ensures [delete-removes-selection] !pend && old(rl.selection.active) && b != -1 && e != -1 ==> *rl.line == old(*rl.line)[:b] + old(*rl.line)[e:]
+//@   ensures [delete-stores-selection] !pend && old(rl.selection.active) && b != -1 && e != -1 && e > b ==> killed(rl) == old(*rl.line)[b:e]
+//@   let lb = lineB(rl)
+//@   let le = lineE(rl)
+//@   ensures [dd-removes-line] pend && lb != -1 && le != -1 ==> *rl.line == old(*rl.line)[:lb] + old(*rl.line)[le:]
+//@   ensures [dd-stores-line] pend && lb != -1 && le != -1 && le > lb ==> killed(rl) == runes(addnl(str(old(*rl.line)[lb:le])))
+
+//@ func (*Shell).viYankTo
+//@   props C17
+//@   assume_nopanic only the active-selection branch is under contract for C17; yy / Y are covered separately (known C01 finding in viYankWholeLine)
+//@   requires viok(rl) && !rl.Buffers.selected && len(rl.selection.surrounds) == 0
+//@   let pend = len(rl.Keymap.pending) > 0 && rl.Keymap.active.Action == rl.Keymap.pending[0].Action
+//@   let b = opB(rl)
+//@   let e = opE(rl)
+//@   ensures [yank-keeps-buffer] !pend && old(rl.selection.active) ==> *rl.line == old(*rl.line)
+//@   ensures [yank-stores-selection] !pend && old(rl.selection.active) && b != -1 && e != -1 && e > b ==> killed(rl) == old(*rl.line)[b:e]
+//@   let lb = lineB(rl)
+//@   let le = lineE(rl)
+//@   ensures [yy-keeps-buffer] pend ==> *rl.line == old(*rl.line)
+//@   ensures [yy-stores-line] pend && lb != -1 && le != -1 && le > lb ==> killed(rl) == runes(addnl(str(old(*rl.line)[lb:le])))
